@@ -32,6 +32,11 @@ MCConfigsDeepSync == {Mk(60, "always", ThFrag), Mk(26, "always", ThDead)}
 MCConfigsBig == {Mk(mf, "none", th) : mf \in {60, 10000, Big}, th \in {ThAll, ThFrag, ThDead}}
 MCConfigsBigSync == {Mk(mf, "always", th) : mf \in {60, 10000}, th \in {ThAll, ThFrag}}
 
+\* merge selection by the size criterion ALONE while older files are not small: two entries per file, files
+\* below 50 bytes are "small", counters practically never select (fragmentation > 3/4, dead bytes never)
+ThSmall50 == [thFragNum |-> 3, thFragDen |-> 4, thDead |-> Big, thSmall |-> 50]
+MCConfigsSmallOnly == {Mk(50, "none", ThSmall50)}
+
 \* one configuration: one file for everything, every merge takes every file
 MCConfigsOneAll == {Mk(Big, "none", ThAll)}
 
